@@ -20,22 +20,32 @@
                                                     131         if i == len(cache):
                                                     132             acquire()
                                                     133             try:
-                                                    134                 if self._cache_complete:
+                                                    134                 if self._cache_complete and cache is self._cache:
                                                     135                     break
                                                     136                 try:
                                                     137                     for j in range(10):
                                                     138                         cache.append(advance_iterator(gen))
                                                     139                 except StopIteration:
-                                                    140                     self._cache_gen = gen = None
-                                                    141                     self._cache_complete = True
+                                                                                gen = None
+                                                                                if cache is self._cache:
+                                                    140                             self._cache_gen = None
+                                                    141                             self._cache_complete = True
                                                     142                     break
+                                                                        except Exception:
+                                                                            if i == len(cache):
+                                                                                raise
                                                     143             finally:
                                                     144                 release()
                                                     145         yield cache[i]
                                                     146         i += 1
-                                                    147     while i < self._len:
+                                                    147     while i < len(cache):
                                                     148         yield cache[i]
                                                     149         i += 1
+
+  (Listing of the repaired file: pending_fixes/D-C11-genraise.diff + D-C10-stale.diff.  The unnumbered statements are
+  folded into the step before them: they touch only locals, the lock, or compare `cache is self._cache`, which is
+  constantly true for the iterators of THIS machine — one generation of the object; an iterator of an invalidated
+  generation runs on that generation's own machine and never writes the object's flags: Model/RRuleSet.lean.)
 
   One `step` = one line event of CPython's tracer: the thread executes the statement it is
   paused at and pauses at the next one.  `acquire()` (line 132) is enabled only when the lock is
@@ -82,8 +92,9 @@ structure Shared where
   genNone : Bool            -- `self._cache_gen is None`
   lock : Option Tid         -- owner of `self._cache_lock`
   len : Option Nat          -- `self._len`
-  raises : Option (Nat × PyErr) := none   -- (ghost) the underlying generator raises E, not StopIteration, when asked for its k-th value
-  genDead : Bool := false   -- the underlying generator object has been terminated by an exception (any further next() is StopIteration)
+  endErr : Option PyErr := none   -- (ghost) how the underlying generator ends after yielding all of `src`: `none` = StopIteration
+                                  -- (publishing `_len`), `some E` = it raises E (and, being a `_restartable`, raises E again
+                                  -- whenever it is asked for that value again)
   deriving DecidableEq, Repr, Inhabited
 
 /-- one iterator / query thread -/
@@ -133,36 +144,29 @@ def entryRes (sh : Shared) : Query → Res
   | .count => answer sh .count []
   | q => fast q sh.cache
 
-/-- line 138 when the generator behaves: the next value, or `self._len = total` and StopIteration -/
-def step138ok (sh : Shared) (it : Iter) : Option (Shared × Iter) :=
+/-- the generator's own exception E reaches the consumer (it is the consumer's RESULT, exactly as on an uncached
+    object; `crash` stays reserved for exceptions the caching code itself would cause) -/
+def raiseTo (it : Iter) (e : PyErr) : Iter :=
+  { it with pc := .done, res := some (.err e) }
+
+/-- line 138, `cache.append(advance_iterator(gen))`, with its three outcomes: the next value; StopIteration with
+    `self._len = total` published (rrule.py `_iter`, last statement); or the generator raises E.  In the last case
+    (repaired code) `_restartable.__next__` has replaced the dead generator by a fresh one at the same position, so
+    nothing of the shared state changes, and `except Exception: if i == len(cache): raise` (lines 143-147 of the
+    repaired file) either lets E escape through the `finally` (release + raise: ONE step here — the handler
+    touches only locals and the lock) or, when this fill has already produced the value the consumer asked for,
+    falls through to the `finally` like a completed batch: the error is reported when position `len(cache)` itself
+    is requested. -/
+def step138 (sh : Shared) (it : Iter) : Option (Shared × Iter) :=
   match sh.src[sh.genPos]? with
   | some x => some ({ sh with cache := sh.cache ++ [x], genPos := sh.genPos + 1 },
                     { it with j := it.j + 1, pc := .l137 })
-  | none => some ({ sh with len := some sh.genPos }, { it with pc := .l139 })
-
-/-- the exception the generator raises now, if any -/
-def raisesNow (sh : Shared) : Option PyErr :=
-  match sh.raises with
-  | some (k, e) => if k = sh.genPos then some e else none
-  | none => none
-
-/-- line 138, `cache.append(advance_iterator(gen))`, with its three outcomes -/
-def step138 (sh : Shared) (it : Iter) : Option (Shared × Iter) :=
-  if sh.genDead then
-    -- next() on a generator that an exception has terminated: StopIteration, and `self._len = total` is NOT executed
-    some (sh, { it with pc := .l139 })
-  else match raisesNow sh with
+  | none =>
+    match sh.endErr with
+    | none => some ({ sh with len := some sh.genPos }, { it with pc := .l139 })
     | some e =>
-      -- the generator raises E: not caught by `except StopIteration`; the `finally` releases the lock and E escapes
-      -- (raise + release taken as one step); `self._cache_gen` keeps the dead generator
-      some ({ sh with genDead := true, lock := none }, crashWith it e)
-    | none => step138ok sh it
-
-theorem step138_eq {sh : Shared} (h : sh.raises = none ∧ sh.genDead = false) (it : Iter) :
-    step138 sh it = step138ok sh it := by
-  unfold step138 raisesNow
-  rw [h.1, h.2]
-  rfl
+      if it.i == sh.cache.length then some ({ sh with lock := none }, raiseTo it e)
+      else some (sh, { it with brk := false, pc := .l144 })
 
 /-- one statement of thread `t`; `none` = not enabled (blocked in `acquire()`, or finished) -/
 def stepIter (sh : Shared) (t : Tid) (it : Iter) : Option (Shared × Iter) :=
@@ -212,9 +216,8 @@ def stepIter (sh : Shared) (t : Tid) (it : Iter) : Option (Shared × Iter) :=
               | none => crashWith it .IndexError)
   | .l146 => some (sh, { it with i := it.i + 1, pc := .l130 })
   | .l147 =>
-    some (sh, match sh.len with
-              | none => crashWith it .TypeError
-              | some n => if it.i < n then { it with pc := .l148 } else finish sh it)
+    -- `while i < len(cache):` (since the repair of D-C10-stale; `i < self._len` before: TypeError when `_len` is None)
+    some (sh, if it.i < sh.cache.length then { it with pc := .l148 } else finish sh it)
   | .l148 =>
     some (sh, match sh.cache[it.i]? with
               | some x => receive sh it x .l149
@@ -230,12 +233,13 @@ def step (s : State) (t : Tid) : Option State :=
     | none => none
     | some (sh', it') => some { sh := sh', its := s.its.set t it' }
 
-def initShared (src : List Int) : Shared :=
-  { src := src, cache := [], complete := false, genPos := 0, genNone := false, lock := none, len := none }
+def initShared (src : List Int) (endErr : Option PyErr := none) : Shared :=
+  { src := src, cache := [], complete := false, genPos := 0, genNone := false, lock := none, len := none, endErr := endErr }
 
-/-- a fresh cached rule over `src` and one (not yet started) thread per query -/
-def init (src : List Int) (qs : List Query) : State :=
-  { sh := initShared src, its := qs.map (fun q => { q := q }) }
+/-- a fresh cached rule over `src` (its generator ending by StopIteration, or by raising `endErr`) and one (not yet
+    started) thread per query -/
+def init (src : List Int) (qs : List Query) (endErr : Option PyErr := none) : State :=
+  { sh := initShared src endErr, its := qs.map (fun q => { q := q }) }
 
 /-- run a schedule; a scheduled thread that is not enabled does nothing -/
 def run (s : State) : List Tid → State
@@ -295,32 +299,15 @@ def deadlocked (stepf : State → Tid → Option State) (s : State) : Bool :=
   (List.range s.its.length).any (fun t => !finished s t) &&
   (List.range s.its.length).all (fun t => (stepf s t).isNone)
 
-/-! ### a generator that raises (known finding D-C11-genraise)
+/-! ### a generator that raises (former finding D-C11-genraise, repaired in /repo)
 
-`raises = some (k, E)`: the underlying generator yields `src[0..k-1]` and then raises E (not StopIteration).
-An UNCACHED rule raises E in every operation that asks for the k-th value.  A cached one … see
-Properties/C11.lean. -/
+`endErr = some E`: the underlying generator yields all of `src` and then raises E (not StopIteration).  An UNCACHED
+object raises E in every operation that asks for one value more than `src`; a cached one does the same
+(Properties/C11.lean: `finished_answer` under any interleaving, `genraise_history` for histories of calls). -/
 
-/-- the same query on an uncached rule whose generator raises E after k values: the consumer gets `src.take k`
-    and then E, unless it has stopped before -/
-def genRaising (q : Query) (src : List Int) (k : Nat) (e : PyErr) : Res :=
-  if (List.range (k + 1)).any (fun n => stops q (src.take n)) then gen q (src.take k) else .err e
-
-/-- one consumer run alone to its end on a cached rule at rest -/
-def soloRun (s : State) : Nat → State
-  | 0 => s
-  | fuel + 1 => match step s 0 with
-    | none => s
-    | some s' => soloRun s' fuel
-
-/-- a history of queries on ONE cached rule whose generator raises E after k values -/
-def runRaising (src : List Int) (k : Nat) (e : PyErr) : Shared → List Query → List Res
-  | _, [] => []
-  | sh, q :: qs =>
-    let s := soloRun { sh := sh, its := [{ q := q }] } (200 + 60 * (src.length + 2))
-    (match s.its[0]? with | some it => it.res.getD (.err .AssertionError) | none => .err .AssertionError) ::
-      runRaising src k e s.sh qs
-
-def initRaising (src : List Int) (k : Nat) (e : PyErr) : Shared := { initShared src with raises := some (k, e) }
+/-- the same query on an UNCACHED object whose generator raises E after `src`: the consumer (`for x in self._iter()`)
+    gets the values one by one and E after the last, unless it has dropped the iterator before -/
+def genRaising (q : Query) (src : List Int) (e : PyErr) : Res :=
+  if (List.range (src.length + 1)).any (fun n => stops q (src.take n)) then gen q src else .err e
 
 end Cache
